@@ -4,6 +4,7 @@ import (
 	"crypto/sha256"
 	"errors"
 	"fmt"
+	"google.golang.org/protobuf/proto"
 	"math"
 	"sort"
 	"sync"
@@ -520,6 +521,19 @@ func (s *sut) compare() (res string) {
 		}
 	}()
 	m := s.m
+	// ---- storage contract probes: a snapshot at or below the one the storage holds is out of
+	// date; installing it again (a replayed or duplicated installation) must change nothing
+	if sn, err := s.st.Snapshot(); err == nil && sn.GetMetadata().GetIndex() > 0 {
+		if err := s.st.ApplySnapshot(proto.Clone(sn).(*pb.Snapshot)); !errors.Is(err, raft.ErrSnapOutOfDate) {
+			return fmt.Sprintf("ApplySnapshot of the snapshot the storage already holds (index %d): err=%v, want ErrSnapOutOfDate", sn.GetMetadata().GetIndex(), err)
+		}
+		if idx := sn.GetMetadata().GetIndex(); idx > 1 {
+			old := &pb.Snapshot{Metadata: &pb.SnapshotMetadata{Index: new(idx - 1), Term: new(sn.GetMetadata().GetTerm()), ConfState: &pb.ConfState{Voters: []uint64{1}}}}
+			if err := s.st.ApplySnapshot(old); !errors.Is(err, raft.ErrSnapOutOfDate) {
+				return fmt.Sprintf("ApplySnapshot(%d) below the snapshot the storage holds (%d): err=%v, want ErrSnapOutOfDate", idx-1, idx, err)
+			}
+		}
+	}
 	// ---- storage
 	if fi, _ := s.st.FirstIndex(); fi != m.sto.base+1 {
 		return fmt.Sprintf("storage.FirstIndex = %d, want %d", fi, m.sto.base+1)
